@@ -60,7 +60,7 @@ impl World {
                     vy: (ty - y) / d * speed,
                     w: rng.gen_range(30.0..60.0),
                     h: rng.gen_range(50.0..90.0),
-                    angle: if rotated && k % 2 == 1 { Some(rng.gen_range(0.0..1.5)) } else { None },
+                    angle: if rotated && k % 2 == 1 { Some(rng.gen_range(-1.5..1.5)) } else { None },
                     cid: (*s as i64) * 100 + k as i64 + 1,
                 });
             }
@@ -132,7 +132,13 @@ pub fn candidate_box(cfg: &Cfg, det: &Universal2DBox) -> Universal2DBox {
 
 /// integer weight of (candidate, track) exactly as the positional metric computes it; None = no pair
 pub fn measure(cfg: &Cfg, cand: &Universal2DBox, t: &TrackView) -> Option<i64> {
-    let est = t.est.as_ref()?;
+    // the track's last ESTIMATED box: the newest entry of its predicted-box history (what the tracker is supposed
+    // to have stored as the track's observation as well)
+    let mut est_box = t.predicted.last()?.clone();
+    if let PositionalMetricType::IoU(_) = cfg.metric {
+        est_box.gen_vertices();
+    }
+    let est = &est_box;
     if Universal2DBox::too_far(cand, est) {
         return None;
     }
